@@ -111,7 +111,7 @@ def run_tree(job):
 
 def owned_clause(clause):
     base = clause.split('@')[0]
-    return base in {'commute', 'idempotent', 'parser_flags', 'legal_nesting', 'legal_reparse', 'accepted', 'error_type'}
+    return base in {'commute', 'idempotent', 'parser_flags', 'legal_nesting', 'legal_reparse', 'legal_refs', 'accepted', 'error_type'}
 
 
 def main(tier):
